@@ -1,6 +1,7 @@
 package engines
 
 import (
+	"time"
 	"fmt"
 
 	"polysim/chain"
@@ -42,5 +43,37 @@ func init() {
 				run.Logf("block %d hash %x root %x fh %d", blk.Header.Height, blk.Hash(), res.MerkleRoot, f.Height())
 			}
 			run.Nontrivial([]byte(fmt.Sprint(run.Plan.C("n", 4))))
+		}})
+}
+
+func init() {
+	kernel.Register(&kernel.Check{ID: "SMOKEB", Level: "exploration", QuickRuns: 4, ThoroughRuns: 4,
+		Generate: func(rng *kernel.RNG, idx int, tier string) *kernel.Plan {
+			return &kernel.Plan{Cfg: map[string]int64{"n": 4}, Steps: []kernel.Step{{Op: "blk"}, {Op: "blk"}}}
+		},
+		Execute: func(run *kernel.Run) {
+			kernel.InBubble(func() {
+				w, err := chain.NewWorld(run, 4, 1, 10)
+				if err != nil {
+					panic(err)
+				}
+				defer w.Close()
+				p, err := w.NewNode("p")
+				if err != nil {
+					panic(err)
+				}
+				for i := range run.Plan.Steps {
+					blk, err := p.BuildBlock(&chain.BlockSpec{Nonce: uint64(i)})
+					if err != nil {
+						panic(err)
+					}
+					if _, err := p.Produce(blk); err != nil {
+						panic(err)
+					}
+					kernel.Advance(2 * time.Hour)
+					run.Logf("block %d now=%d", blk.Header.Height, time.Now().Unix())
+				}
+				run.Nontrivial([]byte{1})
+			})
 		}})
 }
